@@ -13,7 +13,7 @@
    running-thread -> resumer -> ... -> main thread is one stack of frames.  `NewThread` gives a new
    thread a child (`context.WithCancel`) of the creator's context and the polling loop iff the creator
    has a context.  `channelReceive`/`channelSelect`/`channelSend` select on `L.ctx.Done()` when the
-   thread has a context and then RETURN normally (the error is raised by the next poll).
+   thread has a context and then raise the context's error themselves.
 
    The machine keeps of all this only the stack of frame tags (top first), whether an error is being
    unwound, the `cancelled` bit, and a pool of suspended coroutines.  Everything a script can do is an
@@ -151,7 +151,7 @@ Inductive label :=
 | LGoCall (fs : list tag)               (* a Go library function calls again *)
 | LGoRet                                (* ... returns *)
 | LGoRaise                              (* ... raises an error of its own *)
-| LUnblock                              (* a blocked channel operation saw Done() closed and returns *)
+| LUnblock                              (* a blocked channel operation saw Done() closed and raises the context's error *)
 | LRecv                                 (* a blocked channel operation completed *)
 | LUnwind                               (* the error leaves a frame *)
 | LCatch                                (* pcall / resume / xpcall-in-handler turns the error into results *)
@@ -186,7 +186,7 @@ Inductive step : state -> label -> state -> Prop :=
     step σ LGoRaise (with_stk σ (stk σ) (Raising EOther))
 | S_unblock : forall σ s,
     stk σ = TGoBlock true :: s -> md σ = Run -> cancelled σ = true ->
-    step σ LUnblock (with_stk σ s Run)
+    step σ LUnblock (with_stk σ (stk σ) (Raising ECtx))
 | S_recv : forall σ p s,
     stk σ = TGoBlock p :: s -> md σ = Run ->
     step σ LRecv (with_stk σ s Run)
@@ -280,7 +280,7 @@ Definition exec_step (σ : state) (go : list gochoice) : (label * state * list g
       | [] => inl (LGoRet, with_stk σ s Run, [])
       end
   | TGoBlock p :: s, Run =>
-      if p && cancelled σ then inl (LUnblock, with_stk σ s Run, go)
+      if p && cancelled σ then inl (LUnblock, with_stk σ (stk σ) (Raising ECtx), go)
       else inl (LRecv, with_stk σ s Run, go)
   | _ :: s, Run => inl (LRet, with_stk σ s Run, go)
   | t :: s, Raising e =>
@@ -334,7 +334,11 @@ Fixpoint drive (fuel : nat) (σ : state) (script : list effect) (k n : nat) (acc
 (* The state in which the k-th poll finds the context done: frames [s], everything attached. *)
 Definition fired (s : list tag) (g : nat) : state := mk s Run true true g [].
 
-(* Closed forms for states in which no Go library frame gets control back (see [armed_run]). *)
+Definition is_block (t : tag) : bool := match t with TGoBlock _ => true | _ => false end.
+Definition no_block (s : list tag) : bool := forallb (fun t => negb (is_block t)) s.
+
+(* Closed forms for states in which no Go library frame gets control back (see [armed_run]) and no
+   channel operation is pending ([no_block]: a pending one may either raise or complete). *)
 Fixpoint cost_run (s : list tag) : nat :=
   match s with
   | [] => 0
@@ -360,6 +364,7 @@ Fixpoint armed_run (s : list tag) : bool :=
   | [] => false
   | TLua _ :: s' => armed_raise s'
   | TGoPlain :: _ => false
+  | TGoBlock _ :: s' => armed_run s' && armed_raise s'   (* it may raise the context's error or complete *)
   | _ :: s' => armed_run s'
   end
 with armed_raise (s : list tag) : bool :=
